@@ -413,11 +413,15 @@ Section Refine.
   Proof.
     intros Hst. unfold fdiff_stages. fold n.
     pose proof n_lt. pose proof md_lt. pose proof lenw_lt as L.
+    destruct (N.eqb_spec (N.of_nat n) 0); [lia|].
     assert (E0 : u32 (N.of_nat n) = N.of_nat n) by (unfold u32; apply N.mod_small; auto).
     rewrite E0.
-    assert (E1 : umul (N.of_nat n) (uadd (N.of_nat md) 1) = N.of_nat lenw).
-    { unfold umul, uadd, lenw in *. unfold W32 in *. nia. }
-    rewrite E1. rewrite !Nat2N.id.
+    assert (E1 : ((N.of_nat n * (N.of_nat md + 1)) mod W64 = N.of_nat lenw)%N).
+    { unfold lenw in *. rewrite N.mod_small; [lia|]. unfold W32, W64 in *. lia. }
+    rewrite E1.
+    destruct (N.ltb_spec 4294967295 (N.of_nat lenw)); [unfold W32 in L; lia|].
+    assert (E2 : u32 (N.of_nat lenw) = N.of_nat lenw) by (unfold u32; apply N.mod_small; auto).
+    rewrite E2. rewrite !Nat2N.id.
     change 0%N with (N.of_nat 0). rewrite get_grid by lia. cbn [bind].
     assert (Hl : 0 < lenw) by (unfold lenw; nia).
     rewrite set_of_nat by (rewrite repeat_length; lia). cbn [bind].
@@ -431,8 +435,8 @@ Section Refine.
       - rewrite nth_error_upd_neq by nia. apply nth_error_repeat. lia. }
     change 1%N with (N.of_nat 1).
     destruct (iloop_ok stages _ (qc1, Qcminus (gpt grid 0) a, F0) 1 R0 ltac:(lia) ltac:(lia))
-      as [w1 [E2 R2]].
-    cbn [fst] in E2. exists w1. split; [exact E2 | exact R2].
+      as [w1 [E3 R3]].
+    cbn [fst] in E3. exists w1. split; [exact E3 | exact R3].
   Qed.
 
   (* generate_fdiff_weights_vector stays inside its arrays and computes [fdiffF] *)
@@ -470,6 +474,46 @@ Proof.
   intros G. destruct (guard_sizeP _ _ G) as [Hn Hsz].
   destruct (fdiff_refines grid a (N.to_nat max_deriv) Hn Hsz) as [w [E [L _]]].
   rewrite N2Nat.id in E. exists w. split; auto.
+Qed.
+
+(* outside the guard the function throws SymEngineException *)
+Lemma fdiff_throws (grid : list Qc) (max_deriv : N) (a : Qc) :
+  (max_deriv < W32)%N -> (N.of_nat (length grid) < W32)%N ->
+  guard_size (length grid) max_deriv = false ->
+  fdiff grid max_deriv a = ErrExn EXN_SYMENGINE.
+Proof.
+  intros Hmd Hlen G. unfold fdiff, fdiff_stages.
+  destruct (N.eqb_spec (N.of_nat (length grid)) 0) as [E|E]; [reflexivity|].
+  assert (E0 : u32 (N.of_nat (length grid)) = N.of_nat (length grid))
+    by (unfold u32; apply N.mod_small; auto).
+  rewrite E0.
+  assert (Hbig : (W32 <= N.of_nat (length grid) * (max_deriv + 1))%N).
+  { unfold guard_size in G.
+    destruct (N.ltb_spec 0 (N.of_nat (length grid))); [|lia].
+    destruct (N.ltb_spec max_deriv W32); [|lia].
+    destruct (N.ltb_spec (N.of_nat (length grid) * (max_deriv + 1)) W32); [discriminate G|lia]. }
+  assert (Hlt : (N.of_nat (length grid) * (max_deriv + 1) < W64)%N).
+  { assert (N.of_nat (length grid) * (max_deriv + 1) <= (W32 - 1) * W32)%N
+      by (apply N.mul_le_mono; lia).
+    unfold W32, W64 in *. lia. }
+  rewrite (N.mod_small _ _ Hlt).
+  destruct (N.ltb_spec 4294967295 (N.of_nat (length grid) * (max_deriv + 1))); [reflexivity|].
+  unfold W32 in Hbig. lia.
+Qed.
+
+(* totality: for every grid (of fewer than 2^32 points) and every unsigned max_deriv the
+   function either returns len_g*(max_deriv+1) weights or throws; it never leaves its arrays *)
+Theorem fdiff_total (grid : list Qc) (max_deriv : N) (a : Qc) :
+  (max_deriv < W32)%N -> (N.of_nat (length grid) < W32)%N ->
+  (guard_size (length grid) max_deriv = true /\
+   exists w, fdiff grid max_deriv a = Ok w /\
+             length w = length grid * (N.to_nat max_deriv + 1))
+  \/ (guard_size (length grid) max_deriv = false /\
+      fdiff grid max_deriv a = ErrExn EXN_SYMENGINE).
+Proof.
+  intros Hmd Hlen. destruct (guard_size (length grid) max_deriv) eqn:G.
+  - left. split; auto. apply fdiff_in_bounds; auto.
+  - right. split; auto. apply fdiff_throws; auto.
 Qed.
 
 (* ---------- the boolean distinctness guard ---------- *)
